@@ -64,4 +64,9 @@ LEVEL = {
            "the flow, so what was written before stays a valid prefix — the last sentence of the property, for all inputs), "
            "C20_clean_rejection_leaves_no_trace. The check's failures must match the known finding's signature (model predicts "
            "the same output AND the rejection changed encoder state). Partial.",
+    "C17": "Theorems on the model parser (a total Lean function, so every input has an outcome): C17_frames_bounded (the frame "
+           "loop delivers at most one frame per input byte), C17_tables_capped / C17_oversized_refused (a decoder only ever "
+           "exists with tables of ≤ 4096 slots; larger declarations are refused before allocation), C17_tables_never_grow, "
+           "C10_short_yields_nothing. Crash/hang/memory of the C parser and CPython are runtime behaviour: observed by the "
+           "watchdogged differential (the model must predict the exact outcome of every fuzzed input). Partial.",
 }
